@@ -1032,6 +1032,97 @@ def rule_r12(prog, res):
     res.floor('R12', 'item re-derivations in Mandatory', n, 1)
 
 
+
+class _LenToName(ast.NodeTransformer):
+    """len(<expr containing key>) -> Name(var)"""
+    def __init__(self, table):
+        self.table = table
+
+    def visit_Call(self, node):
+        if isinstance(node.func, ast.Name) and node.func.id == 'len' and \
+                node.args:
+            t = unparse(node.args[0])
+            for key, var in self.table:
+                if key in t:
+                    return ast.copy_location(ast.Name(id=var, ctx=ast.Load()),
+                                             node)
+        return self.generic_visit(node)
+
+
+def rule_r13(prog, res):
+    res.rule('R13', 'a customized SelfReference is replaced by the class '
+             'customized the same way as soon as one argument or one keyword '
+             'was recorded; the list of descendants is transitive')
+    import copy
+    from ..constfold import try_fold
+    m = prog.module('spyne.model.complex')
+    f = m.functions.get('recust_selfref')
+    if f is None:
+        raise AnalysisError('recust_selfref', 'not found')
+    n = 0
+    for i in walk_no_defs(f.node):
+        if not (isinstance(i, ast.If) and 'customize_kwargs' in unparse(
+                i.test) and any(call_name(c) == 'customize'
+                                for st in i.body for c in calls_in(st))):
+            continue
+        n += 1
+        e2 = _LenToName([('customize_args', '__a'),
+                         ('customize_kwargs', '__k')]).visit(
+            copy.deepcopy(i.test))
+        verdicts = {}
+        for a_, k_ in ((0, 0), (1, 0), (0, 1), (2, 3)):
+            known, v = try_fold(prog, m, e2, {'__a': a_, '__k': k_})
+            verdicts[(a_, k_)] = bool(v) if known else None
+        where = '%s:%d' % (m.relpath, i.lineno)
+        if None in verdicts.values():
+            res.ob('R13', where, 'recust_selfref test %s' % unparse(i.test),
+                   'unclassified')
+            res.unclass('R13', where, 'customization test ' + unparse(i.test))
+            continue
+        ok = verdicts == {(0, 0): False, (1, 0): True, (0, 1): True,
+                          (2, 3): True}
+        res.ob('R13', where, 'recust_selfref customizes for (args, kwargs) '
+               'counts %s' % sorted(k_ for k_, v in verdicts.items() if v),
+               'ok' if ok else 'VIOLATED')
+        if not ok:
+            res.finding('R13', 'recust_selfref|single-customization-dropped',
+                        where, 'the placeholder is replaced by the bare class '
+                        'for some recorded customization (test "%s"): '
+                        'SelfReference.customize(min_occurs=1) yields a field '
+                        'type without the requested constraint' %
+                        unparse(i.test))
+    res.floor('R13', 'customization tests in recust_selfref', n, 1)
+    cm = prog.cls('spyne.model.complex:ComplexModelBase')
+    g = cm.methods.get('get_subclasses')
+    if g is None:
+        raise AnalysisError('ComplexModelBase.get_subclasses', 'not found')
+    k = 0
+    for lp in walk_no_defs(g.node):
+        if not isinstance(lp, ast.For):
+            continue
+        for c in calls_in(lp):
+            if call_name(c) != 'get_subclasses':
+                continue
+            k += 1
+            st = c
+            while not isinstance(st, ast.stmt):
+                st = parent(st)
+            gs = flatten_guards(guards_at(st, stop=lp))
+            where = '%s:%d' % (g.module.relpath, c.lineno)
+            res.ob('R13', where, 'get_subclasses recurses into every child' if
+                   not gs else 'get_subclasses recurses only when %s' % [
+                       unparse(e) for e, _ in gs], 'VIOLATED' if gs else 'ok')
+            if gs:
+                res.finding('R13', 'ComplexModelBase.get_subclasses|recursion-'
+                            'conditional', where, 'the descendants of a child '
+                            'are collected only when "%s%s": grandchildren '
+                            'are missing from the registry the polymorphic '
+                            'readers look a wrapper key up in' % (
+                                '' if gs[0][1] else 'not ',
+                                unparse(gs[0][0])))
+    res.floor('R13', 'recursive collection in get_subclasses', k, 1)
+
+
 def run(prog, res, tier):
     res.run_rule(rule_r1, prog, res)
     res.run_rule(rule_r2, prog, res)
@@ -1045,12 +1136,26 @@ def run(prog, res, tier):
     res.run_rule(rule_r10, prog, res)
     res.run_rule(rule_r11, prog, res)
     res.run_rule(rule_r12, prog, res)
+    res.run_rule(rule_r13, prog, res)
 
 
 _C = 'spyne/model/complex.py'
 _B = 'spyne/model/_base.py'
 
 MUTANTS = [
+    Mutant('selfref-single-keyword-dropped', 'R13', 'fire',
+           'spyne/model/complex.py',
+           in_func('recust_selfref', "len(selfref.customize_kwargs) > 0:",
+                   "len(selfref.customize_kwargs) > 1:"),
+           'single-customization-dropped'),
+    Mutant('subclasses-recursion-behind-dedupe', 'R13', 'fire',
+           'spyne/model/complex.py',
+           in_func('ComplexModelBase.get_subclasses',
+                   "            for subc in subca:\n",
+                   "            for subc in subca:\n"
+                   "                if subc in retval:\n"
+                   "                    continue\n"),
+           'recursion-conditional'),
     Mutant('mandatory-reads-wrapper-bound', 'R12', 'fire', _C,
            in_func('Mandatory', "if v.Attributes.min_occurs == 0:",
                    "if cls.Attributes.min_occurs == 0:"),
